@@ -5,6 +5,8 @@ P  spec/html/HtmlStream.tla  the clauses for ALL inputs: attribute tokens only i
                              token up to the matching end tag, template regions never split / HasTemplate exact
 T  spec/html/HtmlTrace.tla   judges the traces of harness/suites/htmldoc (P on every trace; observed = expected token
                              list on generated documents)
+I  spec/html/HtmlImpl.tla    html/lex.go function by function over a class alphabet; TLC: I => P for every class string,
+                             differential replay of the predicted token lists (checks/c09impl.py)
 """
 import json
 
@@ -178,6 +180,10 @@ def run(ck):
         "tokens are located in the input by searching their bytes (case-insensitively) after the previous token; faithfulness itself is C02",
         "not generated: template regions in comments, doctype, CDATA, plaintext, svg/math, or directly followed by name characters inside a tag",
     ]
+    # growth (DESIGN.md section 7 item 2): the implementation-shaped model of the lexer's automaton, TLC-checked against
+    # HtmlStream / TokenStream and replayed differentially on the code - see checks/c09impl.py
+    import c09impl
+    c09impl.run(ck, thorough)
 
 
 def replay(ck, path):
